@@ -89,18 +89,50 @@ theorem detInner_skip (t : Str) : ∀ (mid a b : Str) (cnt fuel : Nat), '}' ∉ 
 
 theorem isNamed_field (n : Str) (s : Option Str) : (Piece.field n s).isNamed = (n != []) := rfl
 
-theorem detOuter_render : ∀ (rest : List Piece) (pre : Str) (found : Bool) (fuel : Nat) (t : Str),
-    t = pre ++ render rest → wf rest = true → detectOK rest = true → (render rest).length < fuel →
+/-- the outer loop walks over a stretch without an opening brace -/
+theorem detOuter_skip (t : Str) : ∀ (mid a b : Str) (found : Bool) (fuel : Nat), '{' ∉ mid → t = a ++ (mid ++ b) →
+    detOuter t (fuel + mid.length) a.length found = detOuter t fuel (a.length + mid.length) found := by
+  intro mid
+  induction mid with
+  | nil => intro a b found fuel _ _; simp
+  | cons x xs ih =>
+    intro a b found fuel hn ht
+    have hx : x ≠ '{' := fun e => hn (by simp [e])
+    have hxs : '{' ∉ xs := fun e => hn (by simp [e])
+    have hget : t[a.length]? = some x := get_at' ht _ 0 (by simp; try omega) (by simp)
+    have ht2 : t = (a ++ [x]) ++ (xs ++ b) := by rw [ht]; simp
+    have h := ih (a ++ [x]) b found fuel hxs ht2
+    simp only [List.length_append, List.length_cons, List.length_nil] at h
+    have e1 : fuel + (x :: xs).length = (fuel + xs.length) + 1 := by simp; omega
+    rw [e1, detOuter_plain t _ _ _ x hget hx]
+    simp only [List.length_cons]
+    rw [show a.length + (xs.length + 1) = a.length + (0 + 1) + xs.length by omega]
+    exact h
+
+theorem detOuter_render : ∀ (n : Nat) (rest : List Piece), rest.length ≤ n →
+    ∀ (pre : Str) (found : Bool) (fuel : Nat) (t : Str),
+    t = pre ++ render rest → wf rest = true → detOK false rest = true → (render rest).length < fuel →
     detOuter t fuel pre.length found = (found || rest.any Piece.isNamed) := by
-  intro rest
-  induction rest using List.rec with
-  | nil =>
-    intro pre found fuel t ht _ _ _
+  intro n
+  induction n with
+  | zero =>
+    intro rest hl pre found fuel t ht _ _ _
+    have : rest = [] := List.length_eq_zero_iff.1 (by omega)
+    subst this
     rw [detOuter_end]
     · simp
     · subst ht; simp [render]
-  | cons p r ih =>
+  | succ n ih =>
+    intro rest hl
+    cases rest with
+    | nil =>
+      intro pre found fuel t ht _ _ _
+      rw [detOuter_end]
+      · simp
+      · subst ht; simp [render]
+    | cons p r =>
     intro pre found fuel t ht hw hok hfuel
+    have hlr : r.length ≤ n := by simp at hl; omega
     have hwp : p.wf = true := by simp only [wf, List.all_cons, Bool.and_eq_true] at hw; exact hw.1
     have hwr : wf r = true := by simp only [wf, List.all_cons, Bool.and_eq_true] at hw; exact hw.2
     obtain ⟨f, rfl⟩ : ∃ f, fuel = f + 1 := ⟨fuel - 1, by omega⟩
@@ -109,17 +141,17 @@ theorem detOuter_render : ∀ (rest : List Piece) (pre : Str) (found : Bool) (fu
       have hcne : c ≠ '{' := by simp only [Piece.wf, Bool.and_eq_true, bne_iff_ne, ne_eq] at hwp; exact hwp.1
       have ht1 : t = pre ++ (c :: render r) := by rw [ht]; simp [render, Piece.render]
       have ht2 : t = (pre ++ [c]) ++ render r := by rw [ht1]; simp
-      have hok' : detectOK r = true := by simpa [detectOK] using hok
-      have h := ih (pre ++ [c]) found f t ht2 hwr hok' (by simp [render, Piece.render] at hfuel; omega)
+      have hok' : detOK false r = true := by simpa [detOK] using hok
+      have h := ih r hlr (pre ++ [c]) found f t ht2 hwr hok' (by simp [render, Piece.render] at hfuel; omega)
       rw [detOuter_plain t f _ found c (get_at' ht1 _ 0 (by simp; try omega) (by simp)) hcne]
       simp only [List.length_append, List.length_cons, List.length_nil] at h
       rw [h]; simp [Piece.isNamed]
     | escClose =>
       have ht1 : t = pre ++ ('}' :: '}' :: render r) := by rw [ht]; simp [render, Piece.render]
       have ht2 : t = (pre ++ ['}', '}']) ++ render r := by rw [ht1]; simp
-      have hok' : detectOK r = true := by simpa [detectOK] using hok
+      have hok' : detOK false r = true := by simpa [detOK] using hok
       obtain ⟨f', rfl⟩ : ∃ f', f = f' + 1 := ⟨f - 1, by simp [render, Piece.render] at hfuel; omega⟩
-      have h := ih (pre ++ ['}', '}']) found f' t ht2 hwr hok' (by simp [render, Piece.render] at hfuel; omega)
+      have h := ih r hlr (pre ++ ['}', '}']) found f' t ht2 hwr hok' (by simp [render, Piece.render] at hfuel; omega)
       rw [detOuter_plain t _ _ found '}' (get_at' ht1 _ 0 (by simp; try omega) (by simp)) (by decide),
           detOuter_plain t _ _ found '}' (get_at' ht1 _ 1 (by simp; try omega) (by simp)) (by decide)]
       simp only [List.length_append, List.length_cons, List.length_nil] at h
@@ -127,16 +159,16 @@ theorem detOuter_render : ∀ (rest : List Piece) (pre : Str) (found : Bool) (fu
     | escOpen =>
       have ht1 : t = pre ++ ('{' :: '{' :: render r) := by rw [ht]; simp [render, Piece.render]
       have ht2 : t = (pre ++ ['{', '{']) ++ render r := by rw [ht1]; simp
-      have hok' : detectOK r = true := by simpa [detectOK] using hok
-      have h := ih (pre ++ ['{', '{']) found f t ht2 hwr hok' (by simp [render, Piece.render] at hfuel; omega)
+      have hok' : detOK false r = true := by simpa [detOK] using hok
+      have h := ih r hlr (pre ++ ['{', '{']) found f t ht2 hwr hok' (by simp [render, Piece.render] at hfuel; omega)
       rw [detOuter_esc t _ _ found (get_at' ht1 _ 0 (by simp; try omega) (by simp)) (get_at' ht1 _ 1 (by simp; try omega) (by simp))]
       simp only [List.length_append, List.length_cons, List.length_nil] at h
       rw [h]; simp [Piece.isNamed]
-    | field n s =>
-      have ht1 : t = pre ++ ('{' :: (content n s ++ '}' :: render r)) := by
+    | field nm s =>
+      have ht1 : t = pre ++ ('{' :: (content nm s ++ '}' :: render r)) := by
         rw [ht]; simp [render, render_field]
       have hopen : t[pre.length]? = some '{' := get_at' ht1 _ 0 (by simp; try omega) (by simp)
-      cases n with
+      cases nm with
       | cons a as =>
         -- a named placeholder reached in step: the flag is set whatever follows
         have hal : isAlpha a = true := by
@@ -156,7 +188,8 @@ theorem detOuter_render : ∀ (rest : List Piece) (pre : Str) (found : Bool) (fu
         rw [this]
         simp [detOuter_true, Piece.isNamed]
       | nil =>
-        -- a positional placeholder: the loops stay in step iff a literal character (or nothing) follows
+        -- a positional placeholder: the character after its `}` is skipped
+        have hok1 : detOK true r = true := by simpa [detOK] using hok
         have hnb := content_no_brace hwp
         have hcont : content [] s = syntaxOf s := by simp [content]
         have ht1' : t = (pre ++ ['{']) ++ (syntaxOf s ++ ('}' :: render r)) := by rw [ht1, hcont]; simp
@@ -180,6 +213,8 @@ theorem detOuter_render : ∀ (rest : List Piece) (pre : Str) (found : Bool) (fu
         have hclose : t[pre.length + 1 + (syntaxOf s).length]? = some '}' := by
           have e : t = (pre ++ '{' :: syntaxOf s) ++ ('}' :: render r) := by rw [ht1']; simp
           exact get_at' e _ 0 (by simp; try omega) (by simp)
+        have hfl : (syntaxOf s).length + 2 + (render r).length < f + 1 := by
+          simp [render, render_field, content] at hfuel; omega
         cases r with
         | nil =>
           have hnone : t[pre.length + 1 + (syntaxOf s).length + 1]? = none := by
@@ -191,39 +226,69 @@ theorem detOuter_render : ∀ (rest : List Piece) (pre : Str) (found : Bool) (fu
           · have e : t = (pre ++ '{' :: syntaxOf s) ++ ['}'] := by rw [ht1']; simp [render]
             exact get_at' e _ 2 (by simp; try omega) (by simp)
         | cons q r' =>
+          have hwr' : wf r' = true := by simp only [wf, List.all_cons, Bool.and_eq_true] at hwr; exact hwr.2
+          have hwq : q.wf = true := by simp only [wf, List.all_cons, Bool.and_eq_true] at hwr; exact hwr.1
+          have hlr' : r'.length ≤ n := by simp at hlr; omega
           cases q with
           | text c =>
-            have hwr' : wf r' = true := by simp only [wf, List.all_cons, Bool.and_eq_true] at hwr; exact hwr.2
             have hc : c ≠ '}' := by
-              have : (Piece.text c).wf = true := by simp only [wf, List.all_cons, Bool.and_eq_true] at hwr; exact hwr.1
-              simp only [Piece.wf, Bool.and_eq_true, bne_iff_ne, ne_eq] at this; exact this.2
+              simp only [Piece.wf, Bool.and_eq_true, bne_iff_ne, ne_eq] at hwq; exact hwq.2
             have e : t = (pre ++ '{' :: (syntaxOf s ++ ['}'])) ++ (c :: render r') := by
               rw [ht1']; simp [render, Piece.render]
             have hnext : t[pre.length + 1 + (syntaxOf s).length + 1]? = some c := by
               exact get_at' e _ 0 (by simp; try omega) (by simp)
             simp only [detInner, hclose, if_true, hnext, hc, if_false]
             have e2 : t = (pre ++ '{' :: (syntaxOf s ++ ['}']) ++ [c]) ++ render r' := by rw [e]; simp
-            have hok' : detectOK r' = true := by simp [detectOK, startsText] at hok; exact hok
-            have hfu : (render r').length < f := by
-              cases s <;> simp [render, Piece.render] at hfuel <;> omega
-            -- the induction hypothesis is for `r = text c :: r'`; use it through one plain step
-            have hstep := ih (pre ++ '{' :: (syntaxOf s ++ ['}'])) found (f + 1) t e hwr
-              (by simpa [detectOK] using hok') (by simp [render, Piece.render]; omega)
-            have hl : (pre ++ '{' :: (syntaxOf s ++ ['}'])).length = pre.length + 1 + (syntaxOf s).length + 1 := by
+            have hok' : detOK false r' = true := by simpa [detOK] using hok1
+            have h := ih r' hlr' (pre ++ '{' :: (syntaxOf s ++ ['}']) ++ [c]) found f t e2 hwr' hok'
+              (by simp [render, Piece.render] at hfl; omega)
+            have hl : (pre ++ '{' :: (syntaxOf s ++ ['}']) ++ [c]).length = pre.length + 1 + (syntaxOf s).length + 1 + 1 := by
               simp; omega
-            rw [hl, detOuter_plain t f _ found c hnext
-              (by have : (Piece.text c).wf = true := by
-                    simp only [wf, List.all_cons, Bool.and_eq_true] at hwr; exact hwr.1
-                  simp only [Piece.wf, Bool.and_eq_true, bne_iff_ne, ne_eq] at this; exact this.1)] at hstep
-            rw [hstep]; simp [Piece.isNamed]
-          | escOpen => simp [detectOK, startsText] at hok
-          | escClose => simp [detectOK, startsText] at hok
-          | field n2 s2 => simp [detectOK, startsText] at hok
+            rw [hl] at h
+            rw [h]; simp [Piece.isNamed]
+          | field n2 s2 =>
+            -- another positional placeholder: its `{` is the skipped character, the rest is plain text
+            have hn2 : n2 = [] ∧ detOK false r' = true := by simpa [detOK] using hok1
+            obtain ⟨rfl, hok'⟩ := hn2
+            have hnb2 := content_no_brace hwq
+            have hcont2 : content [] s2 = syntaxOf s2 := by simp [content]
+            have e : t = (pre ++ '{' :: (syntaxOf s ++ ['}'])) ++ ('{' :: (syntaxOf s2 ++ '}' :: render r')) := by
+              rw [ht1']; simp [render, render_field, content]
+            have hnext : t[pre.length + 1 + (syntaxOf s).length + 1]? = some '{' := by
+              exact get_at' e _ 0 (by simp; try omega) (by simp)
+            simp only [detInner, hclose, if_true, hnext, show ('{' : Char) ≠ '}' by decide, if_false]
+            -- skip the plain stretch `syntax2 }`
+            have e3 : t = (pre ++ '{' :: (syntaxOf s ++ ['}']) ++ ['{']) ++ ((syntaxOf s2 ++ ['}']) ++ render r') := by
+              rw [e]; simp
+            have hplain : '{' ∉ syntaxOf s2 ++ ['}'] := by
+              rw [← hcont2]; simp only [List.mem_append, List.mem_cons, List.mem_nil_iff, or_false, not_or]
+              exact ⟨hnb2.1, by decide⟩
+            have hflen : (syntaxOf s2).length + 2 + (render r').length ≤ (render (Piece.field [] s2 :: r')).length := by
+              simp [render, render_field, content]; omega
+            obtain ⟨f2, hf2⟩ : ∃ f2, f = f2 + (syntaxOf s2 ++ ['}']).length :=
+              ⟨f - (syntaxOf s2 ++ ['}']).length, by simp; omega⟩
+            have hskip := detOuter_skip t (syntaxOf s2 ++ ['}']) (pre ++ '{' :: (syntaxOf s ++ ['}']) ++ ['{']) (render r')
+              found f2 hplain e3
+            have hl1 : (pre ++ '{' :: (syntaxOf s ++ ['}']) ++ ['{']).length = pre.length + 1 + (syntaxOf s).length + 1 + 1 := by
+              simp; omega
+            rw [hl1] at hskip
+            rw [hf2, hskip]
+            have e4 : t = (pre ++ '{' :: (syntaxOf s ++ ['}']) ++ '{' :: (syntaxOf s2 ++ ['}'])) ++ render r' := by
+              rw [e]; simp
+            have h := ih r' hlr' (pre ++ '{' :: (syntaxOf s ++ ['}']) ++ '{' :: (syntaxOf s2 ++ ['}'])) found f2 t e4 hwr' hok'
+              (by simp at hf2; omega)
+            have hl2 : (pre ++ '{' :: (syntaxOf s ++ ['}']) ++ '{' :: (syntaxOf s2 ++ ['}'])).length
+                = pre.length + 1 + (syntaxOf s).length + 1 + 1 + (syntaxOf s2 ++ ['}']).length := by
+              simp; omega
+            rw [hl2] at h
+            rw [h]; simp [Piece.isNamed]
+          | escOpen => simp [detOK] at hok1
+          | escClose => simp [detOK] at hok1
 
 /-- **detection**, for every template of the grammar in the class `detectOK` -/
 theorem contains_render (ps : List Piece) (hw : wf ps = true) (hok : detectOK ps = true) :
     containsNamedArgs (render ps) = ps.any Piece.isNamed := by
-  have h := detOuter_render ps [] false ((render ps).length + 1) (render ps) (by simp) hw hok (by omega)
+  have h := detOuter_render ps.length ps (Nat.le_refl _) [] false ((render ps).length + 1) (render ps) (by simp) hw hok (by omega)
   simpa [containsNamedArgs] using h
 
 end Named
